@@ -247,11 +247,29 @@ def cmpInt (f : Int → Int → Bool) (a b : V) : PyM V :=
     | .str _, .str _ => throw .unsupported
     | .list _, .list _ => throw .unsupported
     | .tuple _, .tuple _ => throw .unsupported
+    | .float .., _ => throw .unsupported
+    | _, .float .. => throw .unsupported
     | _, _ => throw .TypeError
+
+/-- `math.isnan` on the bit pattern of a wire float (binary32 / binary64): exponent all ones, mantissa non-zero -/
+def floatIsNaN (w bits : Nat) : PyM Bool :=
+  if w = 4 then pure (decide (bits % 2147483648 > 2139095040))
+  else if w = 8 then pure (decide (bits % 9223372036854775808 > 9218868437227405312))
+  else throw .unsupported
+
+/-- `x > 0` on the bit pattern of a wire float: sign clear, not zero, not NaN (+inf and denormals count) -/
+def floatGtZero (w bits : Nat) : PyM Bool := do
+  let nan ← floatIsNaN w bits
+  if w = 4 then pure (decide (bits < 2147483648) && bits != 0 && !nan)
+  else pure (decide (bits < 9223372036854775808) && bits != 0 && !nan)
 
 def lt := cmpInt (fun x y => decide (x < y))
 def le := cmpInt (fun x y => decide (x ≤ y))
-def gt := cmpInt (fun x y => decide (x > y))
+/-- `a > b`; of a wire float only `x > 0` is defined -/
+def gt (a b : V) : PyM V :=
+  match a, b with
+  | .float w bits, .int 0 => do pure (.bool (← floatGtZero w bits))
+  | _, _ => cmpInt (fun x y => decide (x > y)) a b
 def ge := cmpInt (fun x y => decide (x ≥ y))
 
 /-- `a is None` -/
